@@ -1,4 +1,4 @@
 From AV Require Import Base.Util Model.Murmur Model.MurmurGen Model.Partitioner Proofs.MurmurGenEq Proofs.MurmurJava.
 Lemma gen_is_java data : bytes_ok data = true ->
   murmur2_java (map sbyte data) mod 0x100000000 = gen_pure_murmur2 data gen_seed.
-Proof. intro H. rewrite gen_eq_model. apply murmur_java_agree. exact H. Qed.
+Proof. intro H. rewrite (gen_eq_model data H). apply murmur_java_agree. exact H. Qed.
